@@ -13,3 +13,16 @@ func (m *Message) VerifReadLimit() uint64 {
 	m.rlimitInit.Do(m.initReadLimit)
 	return atomic.LoadUint64(&m.rlimit)
 }
+
+// VerifYield, when set, is called at the instrumented wait points of the
+// capability and promise code (just before a goroutine may block on a
+// channel).  It exists only in builds with the "verif" tag: the external
+// harness uses it to learn that an operation has reached its blocking point
+// and to perturb schedules.  It must not be changed while operations run.
+var VerifYield func(site string)
+
+func verifYield(site string) {
+	if f := VerifYield; f != nil {
+		f(site)
+	}
+}
